@@ -6,6 +6,7 @@ export GOFLAGS=-mod=mod GOPROXY=off GOSUMDB=off GOTOOLCHAIN=local
 export GOCACHE=${GOCACHE:-/verif/.work/gocache}
 mkdir -p .work evidence replays
 cat /repo/go.sum extra.sum | sort -u > go.sum
-go1.26 build -tags verif -o .work/kv ./cmd/kv
+./check build
+go1.26 build -race -o .work/racepass ./cmd/racepass || true
 go1.26 vet -tags verif ./specmodel/ >/dev/null 2>&1 || true
 echo "setup ok"
